@@ -118,6 +118,9 @@ pub fn rich_dump(r: &mut Rng, prop: &str, seed: u64, profile: &str, benign_fault
     if r.chance(1, 12) && crate::gen::spoil_first_lib_name(&mut b, &cfg) {
         tags.push("linkmap-name-not-utf8".into());
     }
+    if r.chance(1, 14) && crate::gen::spoil_last_lib_name_pointer(&mut b, &cfg) {
+        tags.push("linkmap-name-unreadable".into());
+    }
     let mut opts = Opts {
         blamed: tid_of(r.below(nthreads as u64) as usize),
         ..Default::default()
@@ -1029,6 +1032,18 @@ fn gen_c07(r: &mut Rng, seed: u64) -> Scenario {
             tags.push(cls);
         }
     }
+    if !opts.app_memory.is_empty() && r.chance(1, 6) {
+        // two requested regions with the same start and different lengths (a header and the whole
+        // object it belongs to); also the same region requested twice
+        let (p0, l0) = opts.app_memory[r.below(opts.app_memory.len() as u64) as usize];
+        if l0 > 1 && b.world.regions.iter().any(|g| g.start <= p0 && p0 + l0 <= g.end() && g.perms == "rw-p") {
+            opts.app_memory.push((p0, r.range(1, l0 - 1)));
+            if r.coin() {
+                opts.app_memory.push((p0, l0));
+            }
+            tags.push("app-same-start".into());
+        }
+    }
     tags.sort();
     tags.push(format!("app{}", nreg.min(3)));
     tags.push(format!("thr{}", match n { 1 => "1", 2..=5 => "2-5", 6..=24 => "6-24", _ => "25+" }));
@@ -1596,6 +1611,9 @@ fn gen_c18(r: &mut Rng, seed: u64) -> Scenario {
     if r.chance(1, 10) && crate::gen::spoil_first_lib_name(&mut b, &cfg) {
         tags.push("linkmap-name-not-utf8".into());
     }
+    if r.chance(1, 12) && crate::gen::spoil_last_lib_name_pointer(&mut b, &cfg) {
+        tags.push("linkmap-name-unreadable".into());
+    }
     let mut opts = Opts { blamed: tid_of(r.below(n as u64) as usize), ..Default::default() };
     if n > 1 && opts.blamed != PID && r.chance(1, 6) {
         // the initial thread has exited (pthread_exit in main); its /proc files are those of a zombie
@@ -1846,6 +1864,7 @@ fn gen_c14(r: &mut Rng, seed: u64) -> Scenario {
     let based = !non_pie && !spec.moved_tables && r.chance(1, 8);
     if based {
         spec.link_base = 0x20_0000;
+        spec.force_dyn = true;
         tags.push("nonzero-link-base".into());
     }
     let img = crate::elfgen::build(&spec);
@@ -2016,7 +2035,7 @@ fn gen_c08(r: &mut Rng, seed: u64) -> Scenario {
     }
     // a library whose section table is not mapped and whose note is only in a section
     if r.chance(1, 3) {
-        let spec = crate::elfgen::ElfSpec { build_id: Some(r.bytes(20)), note_in_phdr: false, soname: Some("libfileonly.so.2".into()), sections: true, text_pages: 1, text_seed: r.next(), dt_debug: false, dyn_pad: 0, with_pt_phdr: false, sections_at_end: true, rodata_before_text: false, data_gap_pages: 0, link_base: 0, text_sec_skip: 0, moved_tables: false };
+        let spec = crate::elfgen::ElfSpec { build_id: Some(r.bytes(20)), note_in_phdr: false, soname: Some("libfileonly.so.2".into()), sections: true, text_pages: 1, text_seed: r.next(), dt_debug: false, dyn_pad: 0, with_pt_phdr: false, sections_at_end: true, rodata_before_text: false, data_gap_pages: 0, link_base: 0, text_sec_skip: 0, moved_tables: false, force_dyn: false };
         let img = crate::elfgen::build(&spec);
         let base = LIB_BASE + 0x5000_0000;
         let path = "/usr/lib/libfileonly.so.2.0";
@@ -2033,7 +2052,7 @@ fn gen_c08(r: &mut Rng, seed: u64) -> Scenario {
     }
     // a library embedded in an archive: executable mapping from a non-zero file offset
     if r.chance(1, 3) {
-        let spec = crate::elfgen::ElfSpec { build_id: Some(r.bytes(20)), note_in_phdr: true, soname: Some("libembedded.so".into()), sections: r.coin(), text_pages: 1, text_seed: r.next(), dt_debug: false, dyn_pad: 0, with_pt_phdr: false, sections_at_end: false, rodata_before_text: false, data_gap_pages: 0, link_base: 0, text_sec_skip: 0, moved_tables: false };
+        let spec = crate::elfgen::ElfSpec { build_id: Some(r.bytes(20)), note_in_phdr: true, soname: Some("libembedded.so".into()), sections: r.coin(), text_pages: 1, text_seed: r.next(), dt_debug: false, dyn_pad: 0, with_pt_phdr: false, sections_at_end: false, rodata_before_text: false, data_gap_pages: 0, link_base: 0, text_sec_skip: 0, moved_tables: false, force_dyn: false };
         let img = crate::elfgen::build(&spec);
         let base = LIB_BASE + 0x6000_0000;
         let path = "/data/app/base.apk";
@@ -2049,7 +2068,7 @@ fn gen_c08(r: &mut Rng, seed: u64) -> Scenario {
     // a statically linked, non-position-independent program image: every virtual address in it is
     // absolute (link base 0x400000) and differs from the file offset
     if r.chance(1, 3) {
-        let spec = crate::elfgen::ElfSpec { build_id: Some(r.bytes(20)), note_in_phdr: true, soname: None, sections: r.coin(), text_pages: 1, text_seed: r.next(), dt_debug: false, dyn_pad: 0, with_pt_phdr: true, sections_at_end: false, rodata_before_text: false, data_gap_pages: 0, link_base: 0x40_0000, text_sec_skip: 0, moved_tables: false };
+        let spec = crate::elfgen::ElfSpec { build_id: Some(r.bytes(20)), note_in_phdr: true, soname: None, sections: r.coin(), text_pages: 1, text_seed: r.next(), dt_debug: false, dyn_pad: 0, with_pt_phdr: true, sections_at_end: false, rodata_before_text: false, data_gap_pages: 0, link_base: 0x40_0000, text_sec_skip: 0, moved_tables: false, force_dyn: r.coin() };
         let img = crate::elfgen::build(&spec);
         let base = 0x40_0000u64;
         let path = "/opt/tools/static-helper";
@@ -2072,7 +2091,7 @@ fn gen_c08(r: &mut Rng, seed: u64) -> Scenario {
         push_tags(&mut tags, &["non-elf"]);
     }
     if r.chance(1, 4) {
-        let spec = crate::elfgen::ElfSpec { build_id: Some(vec![0u8; 20]), note_in_phdr: true, soname: None, sections: true, text_pages: 1, text_seed: 5, dt_debug: false, dyn_pad: 0, with_pt_phdr: false, sections_at_end: false, rodata_before_text: false, data_gap_pages: 0, link_base: 0, text_sec_skip: 0, moved_tables: false };
+        let spec = crate::elfgen::ElfSpec { build_id: Some(vec![0u8; 20]), note_in_phdr: true, soname: None, sections: true, text_pages: 1, text_seed: 5, dt_debug: false, dyn_pad: 0, with_pt_phdr: false, sections_at_end: false, rodata_before_text: false, data_gap_pages: 0, link_base: 0, text_sec_skip: 0, moved_tables: false, force_dyn: false };
         let img = crate::elfgen::build(&spec);
         let base = LIB_BASE + 0x7000_0000;
         let path = "/usr/lib/libzeroid.so";
